@@ -343,7 +343,7 @@ class ClassIndex(object):
 # "extract method" undone: private helpers of a class inlined at their call sites
 # ---------------------------------------------------------------------------
 
-def inline_helpers(cls, fn, keep=(), depth=3):
+def inline_helpers(cls, fn, keep=(), depth=3, module=None):
     """A deep copy of method `fn` in which statement-level calls `self.<h>(...)` to methods of the same class are replaced by the body
     of <h> - for helpers whose name is not in `keep`, that take plain positional / keyword arguments and return at most once, as their
     last statement.  Three call shapes are handled: `self.h(..)`, `x = self.h(..)`, `return self.h(..)`.  Parameters bound to a
@@ -351,8 +351,17 @@ def inline_helpers(cls, fn, keep=(), depth=3):
     then see through a maintainer's helper extraction.  Statements are renumbered in textual order (`lineno`), the line in the
     file is kept in `src_lineno`; parent links are set."""
     import copy
-    meths = methods(cls)
+    meths = methods(cls) if cls is not None else {}
     keep = set(keep) | set([fn.name])
+    # bare-name helpers: functions of the module and closures defined inside fn itself
+    plain = {}
+    if module is not None:
+        for f_ in module.body:
+            if isinstance(f_, ast.FunctionDef):
+                plain[f_.name] = f_
+    for f_ in ast.walk(fn):
+        if isinstance(f_, ast.FunctionDef) and f_ is not fn:
+            plain.setdefault(f_.name, f_)
 
     def always_returns(stmts):
         if not stmts:
@@ -442,14 +451,20 @@ def inline_helpers(cls, fn, keep=(), depth=3):
             return False
         return True
 
+    def lookup(nm):
+        """(helper FunctionDef, number of leading parameters bound implicitly)"""
+        if nm.startswith('self.') and nm.count('.') == 1 and nm[5:] in meths:
+            return meths[nm[5:]], 1
+        if nm and '.' not in nm and nm in plain:
+            return plain[nm], 0
+        return None, 0
+
     def expand(call, shape, target):
         nm = call_name(call) or ''
-        if not nm.startswith('self.') or nm.count('.') != 1:
-            return None
-        h = meths.get(nm[5:])
+        h, skip = lookup(nm)
         if h is None or h.name in keep or not simple(h) or any(isinstance(a, ast.Starred) for a in call.args) or any(k.arg is None for k in call.keywords):
             return None
-        params = [a.arg for a in h.args.args][1:]
+        params = [a.arg for a in h.args.args][skip:]
         if len(call.args) > len(params):
             return None
         bind = dict(zip(params, call.args))
@@ -533,7 +548,7 @@ def inline_helpers(cls, fn, keep=(), depth=3):
                         continue
                     if isinstance(k, ast.Call) and not (top and k is root):
                         nm = call_name(k) or ''
-                        h = meths.get(nm[5:]) if nm.startswith('self.') and nm.count('.') == 1 else None
+                        h, _skip = lookup(nm)
                         if h is not None and h.name not in keep and simple(h):
                             earlier = kids[:idx] if isinstance(val, list) else []
                             if all(isinstance(e, PURE) for e in earlier if isinstance(e, ast.AST)) and all(isinstance(a, PURE + (ast.Constant,)) or not any(isinstance(y, ast.Call) for y in ast.walk(a)) for a in k.args):
@@ -590,6 +605,10 @@ def inline_helpers(cls, fn, keep=(), depth=3):
             except AttributeError:
                 pass
     new.body = walk(new.body, depth)
+    # closures whose every call was inlined are dropped
+    still = set(call_name(c) for st in new.body if not isinstance(st, ast.FunctionDef) for c in calls(st))
+    named = set(x.id for st in new.body if not isinstance(st, ast.FunctionDef) for x in ast.walk(st) if isinstance(x, ast.Name))
+    new.body = [st for st in new.body if not (isinstance(st, ast.FunctionDef) and st.name not in still and st.name not in named and st.name in plain)]
     # renumber in textual order
     counter = [getattr(fn, 'lineno', 1)]
 
@@ -647,3 +666,8 @@ def inlined_class(cls, keep=()):
                     remaining.add(a.attr)       # passed around as a bound method
     newc.body = [s for s in body if not (isinstance(s, ast.FunctionDef) and s.name in inl and s.name not in remaining and s.name.startswith('_'))]
     return newc
+
+
+def inlined_function(module, fn, keep=()):
+    """a module-level function with the module's other (non-kept) functions and its own closures inlined at their call sites"""
+    return inline_helpers(None, fn, keep=keep, module=module)
